@@ -154,7 +154,7 @@ def gen_wf(rng, kind, n=None):
 			method = rng.choice(WF_METHODS)
 			form = rng.random()
 			hostv = rng.choice([b'h.example', b'h.example:8080', b'[::1]', b'10.0.0.1:81'])
-			path, query = rng.choice([(b'/', b''), (b'/a/b', b''), (b'/a', b'x=1&y=2'), (b'/a/b/', b''), (b'/%7Euser', b'q=a+b'), (b'/x;p=1', b'')])
+			path, query = rng.choice([(b'/', b''), (b'/a/b', b''), (b'/a', b'x=1&y=2'), (b'/a/b/', b''), (b'/%7Euser', b'q=a+b'), (b'/x;p=1', b''), (b'/e%CC%81', b''), (b'/%E2%84%AB/%EA%B0%80', b'k=%E2%84%A6'), (b'/' + b'p' * 255, b'')])
 			if method == b'CONNECT':
 				target = hostv if b':' in hostv.replace(b'[::1]', b'') else hostv + b':80'
 				hostv = target
@@ -173,13 +173,13 @@ def gen_wf(rng, kind, n=None):
 			# a payload on GET/HEAD/TRACE is syntactically valid (RFC 7230 3.3) though unusual: sent now and then
 			has_body = method != b'CONNECT' and (method not in (b'GET', b'HEAD', b'TRACE') or rng.random() < .12)
 		else:
-			code = rng.choice([200, 201, 404, 500, 302, 206, 418, 599, 100, 204, 304])
+			code = rng.choice([200, 200, 201, 404, 500, 302, 206, 418, 599, 100, 204, 304, 101, 102, 103, 199, 202, 203, 205, 207, 226, 299, 300, 301, 303, 305, 307, 308, 399, 400, 401, 403, 405, 407, 408, 410, 411, 413, 416, 417, 421, 426, 428, 429, 431, 451, 499, 501, 502, 503, 504, 505, 511])
 			reason = rng.choice([b'OK', b'Not Found', b'Two Words Here', b'X', b"I'm a teapot", b'OK', b'Non-Authoritative Information', b''])  # reason-phrase = *( HTAB / SP / VCHAR / obs-text ): may be empty
 			line = b'HTTP/%d.%d %d %s' % (ver + (code, reason))
 			gt.update(status=code, reason=reason.decode())
 			# RFC 7230 3.3.3 rule 1: 1xx, 204 and 304 responses end with their header section whatever fields they carry;
 			# 1xx and 204 must not carry Content-Length (3.3.2), a 304 may (the length of the representation it did not send)
-			has_body = code not in (100, 204, 304)
+			has_body = not (100 <= code < 200 or code in (204, 304))
 			if code == 304 and rng.random() < .4:
 				gt['rep_length'] = rng.choice([1, 5, 120])
 		fields = []
